@@ -343,6 +343,8 @@ class Validator:
                 if name not in KNOWN_CAPABILITIES:
                     self.flags.append("unknown-capability-in-require")
                 self.loaded.add(name)
+                if name == "vacation-seconds":
+                    self.loaded.add("vacation")      # RFC 6131 section 2: "vacation-seconds" implies "vacation"
         if n.block is not None:
             self.block(n.block)
 
